@@ -1308,7 +1308,7 @@ class Generator:
                     cancel_block = bk
                 else:
                     raise ExtractError(f"{iid}: unknown block {w}")
-            if awaits:
+            if awaits and not opts.get("trusted"):
                 if cancel_block is None:
                     raise ExtractError(f"{iid}: function has {len(awaits)} await(s) but no cancel block "
                                        f"(write `//@ cancel` with `true` to state that none is claimed)")
